@@ -2,6 +2,8 @@ import LitexModel.Bridge.Spec
 import LitexModel.Bridge.Axl2Wb
 import LitexModel.Bridge.Wb2Axl
 import LitexModel.Bridge.Simple
+import LitexModel.Bridge.Down
+import LitexModel.Bridge.Up
 /-
   The bridges composed with a memory-behaved partner of arbitrary latency and with the observer of their
   master-side port.  These closed systems are what the `…_refines_mem` theorems of C09 quantify over:
@@ -163,4 +165,68 @@ def sys (regs0 : Regs) : Machine AxlM Sys (AxlS × CsrM) where
       g := s.g.next (regWr c) m (Simple.toMaster s.fe m) }
 
 end Axl2Csr
+/-! ### AXI-Lite down-converter, write path, over a narrow AXI-Lite byte memory -/
+namespace DownW
+
+variable (c : DownCfg)
+
+/-- Data / strobe of sub-word `k` of a wide word (`subData` / `subStrb` of the model at `counter = k`). -/
+def sd (d k : Nat) : Nat := d / 256 ^ (k * c.nbTo) % 256 ^ c.nbTo
+def ss (st k : Nat) : Nat := st / 2 ^ (k * c.nbTo) % 2 ^ c.nbTo
+
+/-- Sub-word `k` of a wide write as the narrow write the converter issues (nothing for an all-zero strobe). -/
+def subWrite (a d st : Nat) (k : Nat) (m : Mem) : Mem :=
+  if ss c st k == 0 then m else m.writeWord c.nbTo (c.subAddr a k / c.nbTo) (ss c st k) (sd c d k)
+
+/-- The first `k` sub-words of a wide write, in ascending order. -/
+def subWrites (a d st : Nat) : Nat → Mem → Mem
+  | 0, m => m
+  | k + 1, m => subWrite c a d st k (subWrites a d st k m)
+
+/-- Reference semantics of a wide write: its `ratio` sub-word writes. -/
+def wideWr : WrFn Mem := fun m a st d => subWrites c a d st c.ratio m
+
+structure Sys where
+  br : DownWState
+  p  : AxlMemState
+  g  : AxlGhost Mem
+
+def sysOut (s : Sys) (i : AxlM × AxlOracle) : AxlS × AxlM × AxlS :=
+  let r := AxlMem.out s.p i.2
+  (toMaster c s.br i.1 r, toSlave c s.br i.1 r, r)
+
+def sys (mem0 : Mem) : Machine (AxlM × AxlOracle) Sys (AxlS × AxlM × AxlS) where
+  init := { br := init, p := AxlMem.init mem0, g := AxlGhost.init mem0 }
+  out := sysOut c
+  next s i :=
+    let o := sysOut c s i
+    { br := next c s.br i.1 o.2.2, p := AxlMem.next c.nbTo s.p i.2 o.2.1, g := s.g.next (wideWr c) i.1 o.1 }
+
+end DownW
+/-! ### AXI-Lite up-converter with an arbitrary wide partner and the observer of its master port -/
+namespace Up
+
+structure OSys where
+  br : UpState
+  g  : AxlGhost Unit
+
+variable (c : UpCfg)
+
+def osys : Machine (AxlM × AxlS) OSys (AxlS × AxlM) where
+  init := { br := init, g := AxlGhost.init () }
+  out s i := (toMaster c s.br i.1 i.2, toSlave c s.br i.1)
+  next s i := { br := next c s.br i.1, g := s.g.next (fun _ _ _ _ => ()) i.1 (toMaster c s.br i.1 i.2) }
+
+/-- A master that issues one transaction per direction at a time and never presents write data before its
+    address: a new AW only when no write is pending, a new AR only when no read is pending, W only together
+    with its AW or after the AW has been accepted. -/
+def serial (g : AxlGhost Unit) (m : AxlM) : Prop :=
+  (m.awvalid = true → g.pendAW = none) ∧
+  (m.arvalid = true → g.pendAR = none) ∧
+  (m.wvalid = true → g.pendW = none ∧ (m.awvalid = true ∨ g.pendAW.isSome))
+
+/-- The address of the write whose data may be on the W channel in this cycle. -/
+def curWrite (g : AxlGhost Unit) (m : AxlM) : Option Nat := if m.awvalid then some m.awaddr else g.pendAW
+
+end Up
 end Litex.Bridge
